@@ -1087,6 +1087,9 @@ pub enum SpLoc {
     Extra,
     /// the region the other thread's stack descriptor names (switched stack / wrong descriptor)
     Sibling,
+    /// a region that begins exactly where the thread's own stack region ends, the stack pointer being its
+    /// first byte (one past the end of the stack descriptor)
+    Adjacent,
 }
 #[derive(Clone)]
 pub struct StackRegionM {
@@ -1154,16 +1157,17 @@ pub fn context_with_fp(cpu: CpuK, ip: u64, sp: u64, fp: u64) -> Vec<u8> {
 pub const STACK_REGIONS_BASE: u64 = STACK_BASE + 0x10_0000;
 /// Region `j` (0x400 bytes at `STACK_REGIONS_BASE + 0x10000 * j`) encoding `depth` callers whose
 /// return addresses lie in the application module. A context starting here has sp = base + 0x40.
+/// Regions 4 and 5 begin where regions 0 and 1 end; a context starting there has sp = base.
 pub fn stack_region(cpu: CpuK, layout: StackLayout, j: usize, depth: usize) -> StackRegionM {
     let w: u64 = if cpu.bits() == Some(32) { 4 } else { 8 };
-    let base = STACK_REGIONS_BASE + 0x1_0000 * j as u64;
+    let base = if j >= 4 { STACK_REGIONS_BASE + 0x1_0000 * (j as u64 - 4) + 0x400 } else { STACK_REGIONS_BASE + 0x1_0000 * j as u64 };
     let mut bytes = vec![0u8; 0x400];
     let mut put = |addr: u64, v: u64| {
         let o = (addr - base) as usize;
         bytes[o..o + w as usize].copy_from_slice(&v.to_le_bytes()[..w as usize]);
     };
     let returns: Vec<u64> = (0..depth as u64).map(|k| APP_BASE + 0x1000 * (j as u64 + 1) + 0x10 * (k + 1)).collect();
-    let sp = base + 0x40;
+    let sp = if j >= 4 { base } else { base + 0x40 };
     let mut caller_sps = vec![];
     let fp = match layout {
         StackLayout::FramePointer => {
@@ -1240,30 +1244,31 @@ pub struct StackGen {
     pub len: u64,
     pub model: Arc<dyn Fn(u64) -> StackM + Send + Sync>,
 }
-pub const SP_LOCS: [SpLoc; 3] = [SpLoc::Own, SpLoc::Extra, SpLoc::Sibling];
+pub const SP_LOCS: [SpLoc; 4] = [SpLoc::Own, SpLoc::Extra, SpLoc::Sibling, SpLoc::Adjacent];
 pub const STACK_CPU_LAYOUTS: [(CpuK, StackLayout); 5] =
     [(CpuK::Amd64, StackLayout::FramePointer), (CpuK::X86, StackLayout::FramePointer), (CpuK::Arm64, StackLayout::FramePointer), (CpuK::Amd64, StackLayout::Scan), (CpuK::X86, StackLayout::Scan)];
 
 /// C14 stack-region space: two threads (ids 1, 2), each with its own stack region (0, 1) and an
 /// extra region (2, 3) that no descriptor names; every region encodes a different number of
-/// callers (1..3) with its own return addresses. Product of: exception {absent, names thread
-/// 0 / 1 with its context's sp in {own, extra, sibling's} region} (7) x thread 0's context sp
-/// location (3) x thread 1's (3) x depth rotation (3) x memory-list order {stacks first, extras
+/// callers (1..3) with its own return addresses; regions 4, 5 begin exactly where regions 0, 1 end.
+/// Product of: exception {absent, names thread 0 / 1 with its context's sp in {own, extra, sibling's,
+/// adjacent} region} (9) x thread 0's context sp location (4) x thread 1's (4) x depth rotation (3) x memory-list order {stacks first, extras
 /// first} (2) x (CPU, layout) (5: frame-pointer chain on amd64 / x86 / arm64, scan on amd64 /
 /// x86) x OS {Windows, Linux, Mac} (3).
 pub fn gen_stack_regions(_tier: Tier) -> StackGen {
-    let radices = vec![7u64, 3, 3, 3, 2, 5, 3];
+    let radices = vec![9u64, 4, 4, 3, 2, 5, 3];
     let len = crate::core::product(&radices);
     let model = move |idx: u64| {
         use md::PlatformId as P;
         let d = crate::core::unrank(idx, &radices);
         let (cpu, layout) = STACK_CPU_LAYOUTS[d[5] as usize];
         let pid = [P::VER_PLATFORM_WIN32_NT as u32, P::Linux as u32, P::MacOs as u32][d[6] as usize];
-        let regions: Vec<StackRegionM> = (0..4).map(|j| stack_region(cpu, layout, j, 1 + (d[3] as usize + j) % 3)).collect();
+        let regions: Vec<StackRegionM> = (0..6).map(|j| stack_region(cpu, layout, j, 1 + (d[3] as usize + j) % 3)).collect();
         let region_of = |thread: usize, loc: SpLoc| match loc {
             SpLoc::Own => thread,
             SpLoc::Extra => 2 + thread,
             SpLoc::Sibling => 1 - thread,
+            SpLoc::Adjacent => 4 + thread,
         };
         let mut m = Model::new(cpu, pid);
         add_threads(&mut m, &[1, 2], 0);
@@ -1275,7 +1280,7 @@ pub fn gen_stack_regions(_tier: Tier) -> StackGen {
         }
         let mut exc_start = None;
         if d[0] > 0 {
-            let (t, loc) = (((d[0] - 1) / 3) as usize, SP_LOCS[((d[0] - 1) % 3) as usize]);
+            let (t, loc) = (((d[0] - 1) / 4) as usize, SP_LOCS[((d[0] - 1) % 4) as usize]);
             let r = region_of(t, loc);
             let rec: Rec = if os_of(pid) == OsK::Windows { (0xC000_0005, 0, 2, [1, 0x20800, 0]) } else { (11, 1, 0, [0, 0, 0]) };
             let mut x = exc_of(rec, m.threads[t].tid, 0x45, 1);
@@ -1283,7 +1288,7 @@ pub fn gen_stack_regions(_tier: Tier) -> StackGen {
             m.exc = Some(x);
             exc_start = Some((loc, r));
         }
-        let stream_order = if d[4] == 0 { vec![0, 1, 2, 3] } else { vec![3, 2, 1, 0] };
+        let stream_order = if d[4] == 0 { vec![0, 1, 2, 3, 4, 5] } else { vec![5, 4, 3, 2, 1, 0] };
         StackM { model: m, layout, regions, stream_order, own: vec![0, 1], thread_start, exc_start }
     };
     StackGen { name: "stack-regions", len, model: Arc::new(model) }
